@@ -505,3 +505,170 @@ Proof.
   - f_equal. f_equal. unfold nz. ring.
   - pose proof (sqrt_pos ((Ice_n0 s ^ 2 - b ^ 2) * (nz (Ice_n0 s) (Ice_k s) (Ice_a s) z ^ 2 - b ^ 2))). nra.
 Qed.
+
+(* both endpoints below z_uniform: only the uniform-index branch is used, whatever beta *)
+Lemma distance_deep_only_lemma s b zu z0 z1 : good s -> - Ice_n0 s < b < Ice_n0 s -> z0 < zu -> z1 < zu ->
+  is_RInt (pw (tan_deep s b) (tan_theta s b) zu) z0 z1
+          (SPath_z_int_uniform_correction z0 z1 zu b s SPath_distance_integral).
+Proof.
+  intros G Hb H0 H1.
+  destruct (uniform_correction_cases z0 z1 zu b s SPath_distance_integral) as (_ & C2 & _).
+  rewrite C2 by assumption.
+  apply (pw_deep (tan_deep s b) (tan_theta s b) (fun y => SPath_distance_integral y b s true) zu); try lra.
+  intros u v _ _.
+  apply (is_RInt_derive (fun y => SPath_distance_integral y b s true) (tan_deep s b)).
+  - intros x _. apply (deep_antiderivative_lemma s b x G Hb).
+  - intros x _. apply continuous_const.
+Qed.
+
+(* ---------------------------------------------------------------- arrival (clause 6) *)
+(* brentq is an external library: what it returned is the parameter `root` of the generated
+   *_direct_angle / *_indirect_angle_*, and what it guarantees is a Section hypothesis. *)
+Section Arrives.
+  Variables (tr : Tracer) (root tol : R).
+  Let s := Tracer_ice tr.
+  Let zf := vz (Tracer_from_point tr).
+  Let zt := vz (Tracer_to_point tr).
+  (* the conversion arcsin(sin(root) n(z_low) / n(z_from)) is well defined *)
+  Hypothesis Hconv : -1 <= sin root * STracer_n0 tr / AntarcticIce_index s zf <= 1.
+  Hypothesis Hidx : AntarcticIce_index s zf <> 0.
+
+  Definition direct_path : Path :=
+    mkPath (Tracer_from_point tr) (Tracer_to_point tr) (STracer_direct_angle tr root) s (Tracer_dz tr) true.
+  Definition indirect_path : Path :=
+    mkPath (Tracer_from_point tr) (Tracer_to_point tr) (STracer_indirect_angle_1 tr root) s (Tracer_dz tr) false.
+
+  Lemma conversion_preserves_beta :
+    SPath_beta direct_path = STracer_n0 tr * sin root /\
+    SPath_beta indirect_path = STracer_n0 tr * sin root /\
+    (forall peak, STracer_indirect_angle_2 tr peak root = STracer_indirect_angle_1 tr root).
+  Proof.
+    unfold SPath_beta, SPath_n0, SPath_z0, direct_path, indirect_path. simpl.
+    unfold STracer_direct_angle, STracer_indirect_angle_1, STracer_indirect_angle_2, STracer_get_launch_angle. cbv zeta.
+    fold s zf zt.
+    split; [|split; [|reflexivity]].
+    - destruct (Rgtb zf zt); [rewrite sin_PI_x|]; rewrite sin_asin by exact Hconv; field; exact Hidx.
+    - rewrite sin_asin by exact Hconv. field. exact Hidx.
+  Qed.
+
+  (* direct solution: brentq returned `root` with |_direct_r(root) - rho| <= tol *)
+  Hypothesis brentq_direct : Rabs (STracer_direct_r tr root (STracer_rho tr) None) <= tol.
+
+  Lemma direct_arrives_algebra :
+    Rabs (SPath_z_int_uniform_correction (Rmin zf zt) (Rmax zf zt) (SPath_z_uniform direct_path)
+            (SPath_beta direct_path) s SPath_distance_integral - SPath_rho direct_path) <= tol.
+  Proof.
+    destruct conversion_preserves_beta as [Hb _]. rewrite Hb.
+    unfold STracer_direct_r, STracer_r_distance in brentq_direct. cbv zeta in brentq_direct.
+    replace (STracer_n0 tr * sin root) with (sin root * STracer_n0 tr) by ring.
+    exact brentq_direct.
+  Qed.
+
+  Lemma direct_arrives_lemma :
+    SPath_beta_tolerance < SPath_beta direct_path ->
+    wf s -> lo s <= Rmin zf zt -> Rmax zf zt <= hi s ->
+    SPath_beta direct_path < AntarcticIce_index s (Rmax zf zt) ->
+    exists travel,
+      is_RInt (pw (tan_deep s (SPath_beta direct_path)) (tan_theta s (SPath_beta direct_path)) (SPath_z_uniform direct_path))
+              (Rmin zf zt) (Rmax zf zt) travel /\
+      Rabs (travel - SPath_rho direct_path) <= tol.
+  Proof.
+    intros Hb W Hlo Hhi Htop.
+    eexists. split; [|exact direct_arrives_algebra].
+    assert (Hin : lo s <= Rmax zf zt <= hi s).
+    { split; [|assumption]. apply Rle_trans with (Rmin zf zt); [assumption|]. apply Rle_trans with zf; [apply Rmin_l | apply Rmax_l]. }
+    rewrite (index_inside s _ W Hin) in Htop.
+    assert (Hzu : SPath_z_uniform direct_path <= Rmax zf zt \/ Rmax zf zt < SPath_z_uniform direct_path) by lra.
+    destruct Hzu as [Hzu|Hzu].
+    - apply (distance_definite_lemma s (SPath_beta direct_path) (SPath_z_uniform direct_path) (Rmax zf zt) (wf_good s W) Hb Htop);
+        [apply Rle_trans with zf; [apply Rmin_l | apply Rmax_l] | lra | exact Hzu].
+    - (* everything below z_uniform: only the deep branch is used *)
+      assert (Hr : Rmin zf zt <= Rmax zf zt) by (apply Rle_trans with zf; [apply Rmin_l | apply Rmax_l]).
+      apply distance_deep_only_lemma; [apply wf_good; exact W | | lra | lra].
+      pose proof W as (Ha & Hk & _). pose proof (nz_lt_n0 (Ice_n0 s) (Ice_k s) (Ice_a s) Hk (Rmax zf zt)).
+      pose proof beta_tolerance_pos. unfold nzs in Htop. lra.
+  Qed.
+
+  (* indirect solution (outside the `link_range` interpolation next to max_angle) *)
+  Variable link_range : R.
+  Hypothesis Hlink : root <= STracer_max_angle tr - link_range.
+  Hypothesis brentq_indirect : Rabs (STracer_indirect_r tr root (STracer_rho tr) link_range) <= tol.
+
+  Lemma indirect_arrives_lemma :
+    Rabs (SPath_z_integral indirect_path SPath_distance_integral - SPath_rho indirect_path) <= tol.
+  Proof.
+    destruct conversion_preserves_beta as (_ & Hb & _).
+    unfold SPath_z_integral. replace (Path_direct indirect_path) with false by reflexivity. cbv zeta.
+    unfold SPath_z_turn. rewrite Hb.
+    unfold STracer_indirect_r in brentq_indirect. cbv zeta in brentq_indirect.
+    apply Rgtb_false in Hlink. rewrite Hlink in brentq_indirect.
+    unfold STracer_r_distance in brentq_indirect. cbv zeta in brentq_indirect.
+    replace (STracer_n0 tr * sin root) with (sin root * STracer_n0 tr) in * by ring.
+    replace (SPath_z0 indirect_path) with zf by reflexivity.
+    replace (SPath_z1 indirect_path) with zt by reflexivity.
+    replace (SPath_z_uniform indirect_path) with (STracer_z_uniform tr) by reflexivity.
+    replace (Path_ice indirect_path) with s by reflexivity.
+    replace (SPath_rho indirect_path) with (STracer_rho tr) by reflexivity.
+    fold s in brentq_indirect.
+    unfold STracer_z0, STracer_z1 in brentq_indirect. fold zf zt in brentq_indirect.
+    unfold Rmin, Rmax in brentq_indirect. destruct (Rle_dec zf zt).
+    - exact brentq_indirect.
+    - rewrite Rplus_comm. exact brentq_indirect.
+  Qed.
+End Arrives.
+
+(* ---------------------------------------------------------------- numeric tracer on the generated definition *)
+From PyrexProofs Require Import C01_numeric.
+
+Lemma numeric_direct_degenerate_lemma p (f : R -> R) :
+  Path_direct p = true -> 0 < Path_dz p -> Rabs (BPath_z1 p - BPath_z0 p) < Path_dz p ->
+  BPath_z_integral p f = 0.
+Proof.
+  intros Hd Hdz Hc. unfold BPath_z_integral. rewrite Hd. cbv zeta.
+  destruct (grid_degenerate f (BPath_z0 p) (BPath_z1 p) (Path_dz p) Hdz Hc) as (E & _ & _).
+  cbv zeta in E. rewrite E. reflexivity.
+Qed.
+
+Lemma numeric_direct_grid_lemma p (f : R -> R) :
+  Path_direct p = true -> 0 < Path_dz p -> Path_dz p <= Rabs (BPath_z1 p - BPath_z0 p) ->
+  let n := Rtrunc (Rabs (BPath_z1 p - BPath_z0 p) / Path_dz p) in
+  let h := Rabs (linspace_step (BPath_z0 p) (BPath_z1 p) (n + 1)) in
+  BPath_z_integral p f = trapz_dx (map f (linspace (BPath_z0 p) (BPath_z1 p) (n + 1))) h /\
+  Path_dz p <= h < 2 * Path_dz p /\
+  lower_sum (map f (linspace (BPath_z0 p) (BPath_z1 p) (n + 1))) h <= BPath_z_integral p f
+    <= upper_sum (map f (linspace (BPath_z0 p) (BPath_z1 p) (n + 1))) h.
+Proof.
+  intros Hd Hdz Hc. cbv zeta.
+  destruct (grid_step_bounds (BPath_z0 p) (BPath_z1 p) (Path_dz p) Hdz Hc) as [Hn Hstep]. cbv zeta in Hn, Hstep.
+  assert (E : BPath_z_integral p f =
+              trapz_dx (map f (linspace (BPath_z0 p) (BPath_z1 p) (Rtrunc (Rabs (BPath_z1 p - BPath_z0 p) / Path_dz p) + 1)))
+                       (Rabs (linspace_step (BPath_z0 p) (BPath_z1 p) (Rtrunc (Rabs (BPath_z1 p - BPath_z0 p) / Path_dz p) + 1)))).
+  { unfold BPath_z_integral. rewrite Hd. reflexivity. }
+  split; [exact E|]. split; [exact Hstep|]. rewrite E. apply trapz_between_sums. apply Rabs_pos.
+Qed.
+
+(* ---------------------------------------------------------------- non-vacuity *)
+Definition example_ice : Ice := default_antarctic.
+Definition example_tracer : Tracer := mkTracer (0, 0, -200) (100, 0, -100) example_ice 1.
+Definition example_path : Path := mkPath (0, 0, -200) (100, 0, -100) (PI / 4) example_ice 1 true.
+
+Lemma example_good : good example_ice /\ wf example_ice.
+Proof. split; [|exact default_wf]. unfold good, example_ice, default_antarctic; simpl. lra. Qed.
+
+Lemma example_index z : -2850 <= z <= 0 -> AntarcticIce_index example_ice z = 1.78 - 0.43 * exp (0.0132 * z).
+Proof.
+  intros Hz. rewrite (index_inside example_ice z default_wf); [reflexivity|].
+  unfold lo, hi, example_ice, default_antarctic; simpl. lra.
+Qed.
+
+From Interval Require Import Tactic.
+
+Lemma example_beta_in_range :
+  SPath_beta_tolerance < SPath_beta example_path < nzs example_ice (-100) /\
+  -1 <= snell_arg example_path (SPath_z1 example_path) <= 1.
+Proof.
+  unfold SPath_beta, SPath_n0, SPath_z0, snell_arg, SPath_z1, SPath_n0, SPath_z0, example_path, SPath_beta_tolerance; simpl.
+  rewrite !example_index by (unfold vz; simpl; lra).
+  unfold nzs, nz, example_ice, default_antarctic, vz; simpl.
+  repeat split; interval.
+Qed.
